@@ -2238,7 +2238,8 @@ func (tc *typechecker) isCompileConstant(expr ast.Expression) bool {
 		return false
 	case *ast.CompositeLiteral:
 		for _, kv := range expr.KeyValues {
-			if kv.Key != nil && !tc.isCompileConstant(kv.Key) {
+			// A key without a type info is a field name of a struct literal.
+			if kv.Key != nil && tc.compilation.typeInfos[kv.Key] != nil && !tc.isCompileConstant(kv.Key) {
 				return false
 			}
 			if !tc.isCompileConstant(kv.Value) {
